@@ -28,6 +28,16 @@ CLAIMED = {
    note=TRUST + " The <=1472 bound for multi-datagram frames is checked on the implementation's frames, the emitter-level proof is not part of this property file.",
    technique="Coq proof (list induction, first-write-wins invariant) + differential run",
    design="DESIGN.md §5 C04"),
+ "C15": dict(
+   text="Coq theorems on FrameQueue::acknowledge_group over the whole frame-queue + sender state: an ack group naming a frame that is not logged, one with a wrong nonce parity, a dud, and a repeated copy whose claimed frames are already acknowledged all return the state unchanged; if anything changes, every id of the span was logged and the nonce reproduces the parity. Tied by twin/tx/hostile streams; twin-run oracle compares a sender that also sees duplicated and delayed genuine acks with one that does not.",
+   note=TRUST + " The stale window-base fields of a replayed ack frame are covered by the twin-run oracle, not by a theorem.",
+   technique="Coq proof (induction over the ack span) + differential run + twin-run oracle",
+   design="DESIGN.md §5 C15"),
+ "C14": dict(
+   text="Coq theorems on the bit-exact (primitive float) model of SendRateComp/RecvRateSet for ALL operation sequences and feedback values: X <= ceiling in every reachable state; throughput-equation phase: X <= max(X_Bps(rtt,p), s/64); slow start: at most doubling or the initial window per RTT; no-feedback expiry never increases X beyond the floor and keeps it or leaves it >= s/64; RTT estimate = 0.9/0.1 EWMA; step() total. Tied by the rate stream (X, mode, RTT bits, RTO, deadline, X_recv_set after every step, debug+release); oracle recomputes the equation independently.",
+   note=TRUST + " Float-valued terms are opaque in the proofs (bounds hold for all their values); that binary64 evaluation is close to the real-valued RFC formula is not proved.",
+   technique="Coq proof (state invariant over all op sequences, lia over min/max) + bit-exact differential run",
+   design="DESIGN.md §5 C14"),
 }
 
 NOT_YET = "not yet covered by the Coq development in this revision (model/theorem under construction); see DESIGN.md"
